@@ -41,7 +41,7 @@ try:
     if getattr(_bB, "THEOREMS", {}).get("C09"):
         THEOREMS["C09"] = THEOREMS["C09"] + list(_bB.THEOREMS["C09"])
         MODULES["C09"] = MODULES["C09"] + list(_bB.MODULES.get("C09", []))
-        OBLIG_BY_PROP["C09"] = OBLIG_BY_PROP["C09"] + list(getattr(_bB, "OBLIG", []))
+        OBLIG_BY_PROP["C09"] = OBLIG_BY_PROP["C09"] + list((getattr(_bB, "OBLIG_BY_PROP", None) or {}).get("C09", getattr(_bB, "OBLIG", [])))
 except Exception:  # the queue-level theorems stand on their own
     pass
 
